@@ -78,12 +78,13 @@ theorem mptGetProof_eq (root nib r : Int) (klen : Nat) (e : Bool) :
 count and the error are passed on. -/
 theorem mptPutBatch_eq (root r cnt : Int) (n : Nat) (e : Bool) :
     GoFuncs.mptPutBatch root n r cnt e =
-      if n = 0 then (0, "ok", root) else (cnt, "t_putBatch_b_kv_2_err", r) := by
+      if n = 0 then (0, "ok", root)
+      else (cnt, (if e then "t_putBatch_b_kv_2_err" else "ok"), r) := by
   unfold GoFuncs.mptPutBatch
   by_cases h : n = 0
   · simp [h]
   · have : ¬ ((n : Int) = 0) := by omega
-    simp [h, this]
+    cases e <;> simp [h, this]
 
 /-- the decoders' size checks (extension.go:55-60, leaf.go:43-48) are those of the model's `decode`:
 an extension key longer than `maxPathLength` / a value longer than `maxValueLength` sets the reader's
